@@ -132,7 +132,7 @@ def build(prop, extra_targets=()):
 
 def theorems_of(prop):
     """Property theorems = every `theorem` in lean/Props/<prop>.lean, fully qualified."""
-    src = (LEAN / "Props" / f"{prop}.lean").read_text()
+    src = "\n".join(f.read_text() for f in sorted((LEAN / "Props").glob(f"{prop}*.lean")))
     ns = []
     out = []
     for line in strip_comments(src).splitlines():
